@@ -1,5 +1,6 @@
 import PcVerif.Util.Proto
 import PcVerif.Model.Scc.Finish
+import PcVerif.Model.Scc.Writer
 namespace PcVerif.Ops
 open Proto Scc
 
@@ -25,5 +26,22 @@ def sccOps : List (String × Handler) := [
   ("scc.layout", fun a => match a with
     | [r, c] => let p := layoutOf (decNat r, decNat c); encRat p.1 ++ ";" ++ encRat p.2
     | _ => "bad-args")
+]
+end PcVerif.Ops
+
+namespace PcVerif.Ops
+open Proto
+def decWCap (s : String) : List Str × Rat × Rat :=
+  match s.splitOn ";" with
+  | [ls, a, b] => ((if ls = "~" then [] else (ls.splitOn "^").map decStr), decRat a, decRat b)
+  | _ => ([], 0, 0)
+def sccWriterOps : List (String × Handler) := [
+  ("sccw.write", fun a => match a with
+    | [cs] => encStr (SccW.write (if cs = "[]" then [] else (cs.splitOn "|").map decWCap))
+    | _ => "bad-args"),
+  ("sccw.code", fun a => match a with
+    | [ls] => encStr (SccW.textToCode (if ls = "~" then [] else (ls.splitOn "^").map decStr))
+    | _ => "bad-args"),
+  ("sccw.ts", fun a => match a with | [t] => encStr (SccW.formatTimestamp (decRat t)) | _ => "bad-args")
 ]
 end PcVerif.Ops
